@@ -15,3 +15,5 @@ open Emboss.Fmt
 #print axioms C11_sanity_count_differs
 #print axioms C11_format_factors_blank
 #print axioms C11_idempotent_partial
+#print axioms C11_retokenize_partial
+#print axioms C11_row_retokenizes_partial
